@@ -29,6 +29,7 @@ import Jb.Proofs.MlpgMain
 import Jb.Proofs.MlpgMl
 import Jb.Proofs.Engine
 import Mathlib.Tactic.NormNum
+import Jb.Proofs.SynthBridge2
 
 set_option linter.unusedSectionVars false
 
@@ -224,5 +225,14 @@ example : StreamWF exS ∧ exS.gv = none ∧ exS.windows.head? = some [1] ∧ [2
     rcases hst with rfl | rfl <;>
       norm_num [withIvar, absS, MlpgConsts.ivarHi, MlpgConsts.ivarLo, MlpgConsts.ivarMax]
 end Example
+
+/-! ### for the whole library (`Jb/Proofs/SynthBridge2.lean`) -/
+
+/-- **C05 from the voice files** (statement: `Synth.params_maximum_likelihood`). On a well-formed voice set, for a stream `j`
+    whose stage input (`Models::model_stream(j)`) has no GV, a static first window and positive static variances, the
+    trajectory `Engine::generator` hands to the vocoder is `mlpgCreate` of that stage input and the library's durations, has
+    one row per frame, and every column restricted to the voiced frames maximises the Gaussian log-likelihood — the
+    conclusion of `create_total_and_ml`, with well-formedness of the stream and the duration count derived from the voices. -/
+alias library_trajectory_is_ml := Synth.params_maximum_likelihood
 
 end Jb.C05
